@@ -11,7 +11,7 @@ RULE = ("case = one operation sequence over 1-4 evbuffers (random: 20-80 ops, th
 
 STEPS = [
     dict(flavor="asan", harness="h_evbuf", args=["--mode", "model"], cases=dict(quick=2500, thorough=80000), timeout=dict(quick=900, thorough=7200)),
-    dict(flavor="asan", harness="h_evbuf", args=["--mode", "model", "--arg", "exh"], cases=dict(quick=17440, thorough=1082400), seed_off=3, timeout=dict(quick=900, thorough=7200)),
+    dict(flavor="asan", harness="h_evbuf", args=["--mode", "model", "--arg", "exh"], cases=dict(quick=33824, thorough=1082400), seed_off=3, timeout=dict(quick=900, thorough=7200)),
 ]
 REQUIRED = ["ops", "exh_sequences", "invariant_walks", "walk_multichain", "walk_immutable_chains",
             "op_add", "op_prepend", "op_add_printf", "op_add_buffer", "op_prepend_buffer", "op_remove_buffer", "op_drain",
@@ -22,8 +22,8 @@ REQUIRED = ["ops", "exh_sequences", "invariant_walks", "walk_multichain", "walk_
             "frozen_refusals", "references_added", "buffer_references_added", "buffer_moves", "noop_moves", "commits", "ref_cleanups"]
 
 REG = dict(category="exploration",
-           text="Runtime differential monitor: ~2e5 (quick) / ~1.4e7 (thorough) evbuffer operations in random sequences over 1-4 buffers, "
-                "plus every op sequence of length <=2 and half of those of length 3 (quick: 17 440) / every sequence of length <=4 (thorough: 1 082 400 sequences) over a 32-symbol boundary-size alphabet, "
+           text="Runtime differential monitor: ~3e5 (quick) / ~1.7e7 (thorough) evbuffer operations in random sequences over 1-4 buffers, "
+                "plus every op sequence of length <=3 (quick: 33 824) / <=4 (thorough: 1 082 400 sequences) over a 32-symbol boundary-size alphabet, "
                 "each op compared with a flat byte-string model (results, bytes, pointers, positions, failures) and followed by a structural "
                 "invariant walk of every buffer, under ASan+UBSan with library assertions on. Held-on-observed, not a proof.",
            note="trusts the byte-vector model in harness/h_evbuf.c; freeze/no-op/out-of-range rules not fixed by the docs are CALIBRATED to the "
